@@ -61,6 +61,7 @@ class Zygote:
             if "pid" in msg:
                 slot["pid"] = msg["pid"]
             if "rc" in msg:
+                slot["cpu"] = msg.get("cpu")
                 slot["rc"] = msg["rc"]
                 slot["ev"].set()
         self.dead = True
@@ -103,6 +104,7 @@ class Zygote:
         if res.get("status") == "timeout" and "stacks" not in res:
             res["stacks"] = self._tail(err, 6000)
         res["emitted"] = []
+        res["cpu"] = slot.get("cpu")
         for p in (out, err):
             try:
                 os.unlink(p)
@@ -219,7 +221,7 @@ def main():
             time.sleep(0.05)
         while kids:
             try:
-                pid, st = os.waitpid(-1, os.WNOHANG)
+                pid, st, ru = os.wait4(-1, os.WNOHANG)
             except ChildProcessError:
                 break
             if pid == 0:
@@ -227,7 +229,7 @@ def main():
             i = kids.pop(pid, None)
             if i is not None:
                 rc = os.waitstatus_to_exitcode(st)
-                wr.write(json.dumps(dict(id=i, rc=rc)).encode() + b"\n")
+                wr.write(json.dumps(dict(id=i, rc=rc, cpu=[round(ru.ru_utime, 3), round(ru.ru_stime, 3)])).encode() + b"\n")
                 wr.flush()
     # parent went away: take remaining children down
     for pid in kids:
